@@ -137,6 +137,22 @@ def handlePTN : Handler := fun st op args =>
     some (st, match hexDec h with
       | none => "bad-hex"
       | some b => fmtR (parsePTN (mkEnv st noTps) b) fmtFile)
+  | "ptnedit", [h, hm, hc] =>
+    -- parse, edit (annotations of every other move, every third comment), render: `Render` reads the value, not the
+    -- source tokens
+    some (st, match hexDec h, hexDec hm, hexDec hc with
+      | some b, some mods, some com =>
+        let env := mkEnv st noTps
+        match parsePTN env b with
+        | .error e => fmtErr' e
+        | .ok f =>
+          let rec go (nm nc : Nat) : List PTN.Op → List PTN.Op
+            | [] => []
+            | PTN.Op.move src m md :: r => (PTN.Op.move src m (if nm % 2 == 0 then mods else md)) :: go (nm + 1) nc r
+            | PTN.Op.comment src c :: r => (PTN.Op.comment src (if nc % 3 == 0 then com else c)) :: go nm (nc + 1) r
+            | o :: r => o :: go nm nc r
+          hexEnc (render env { f with ops := go 0 0 f.ops })
+      | _, _, _ => "bad-hex")
   | "ptnrender", toks =>
     some (st, match parseFile toks with
       | none => "bad-file"
